@@ -320,3 +320,91 @@ def heap_rules(chk, cid, prog, cfgname, unit='SRC/mc64ad.c'):
     if n < 15:
         raise AnalysisBroken('heap_rules: %d instances, expected >= 15 (3 mirrors, 4 sift-down, 4 sift-up loops, 4 orientations)' % n)
     return n
+
+
+def reset_cover_rule(chk, cid, prog, cfgname):
+    """mc64bd_ / mc64wd_ search one augmenting path per column.  Rows that were reached are kept in q[]: a heap in q[1..qlen] and a stack
+    that grows downwards from q[n] (`--low; q[low] = i`).  Before the next column every reached row must be un-marked (`d[i] = rinf; l[i] = 0`),
+    otherwise the next search treats it as already reached / with a stale distance.  So the epilogue needs a reset loop over the whole stack
+    - starting at the very variable that is the store frontier of the stack - up to n, and one over the heap 1..qlen."""
+    from ..facts import strip, canon, loc, const_value, root_ref
+    from ..ir import pretty
+    from ..run import AnalysisBroken
+    chk.clause(cid, 'MC64 search epilogue un-marks every row that was pushed: the reset loops cover the whole stack (from its store frontier) and the heap')
+    n = 0
+    for fname in ('mc64bd_', 'mc64wd_'):
+        f = prog.func(fname)
+        if f is None:
+            raise AnalysisBroken('%s not found' % fname)
+        chk.saw(unit=f.unit, func=f.unit + ':' + f.name)
+        frontier = set()
+        for blk in f.body.walk():
+            if blk.k != 'Block':
+                continue
+            for i, x in enumerate(blk.c[1:], 1):
+                x = strip(x)
+                if x.k == 'Assign' and x.a['op'] == '=' and strip(x.c[0]).k == 'Index':
+                    l = strip(x.c[0])
+                    pv = strip(blk.c[i - 1])
+                    if root_ref(l) is not None and root_ref(l).a.get('name') == 'q' and strip(l.c[1]).k == 'Ref' and pv.k == 'Unary' \
+                            and pv.a['op'] == '--' and strip(pv.c[0]).k == 'Ref' and strip(pv.c[0]).a.get('id') == strip(l.c[1]).a.get('id'):
+                        frontier.add(strip(l.c[1]).a.get('name'))      # `--V; q[V] = i`: the downward-growing stack
+        if len(frontier) != 1:
+            raise AnalysisBroken('%s: store frontier of the q[] stack is %s, expected one variable' % (fname, sorted(frontier)))
+        fr = next(iter(frontier))
+        resets = []
+        for lp in f.body.walk():
+            if lp.k != 'For' or lp.c[0] is None or lp.c[1] is None:
+                continue
+            body = lp.c[3]
+            stmts = body.c if body.k == 'Block' else [body]
+            if any(x.k in ('If', 'For', 'Call', 'Goto') for st_ in stmts for x in st_.walk()):
+                continue                # a reset loop is a straight-line sweep
+            st = [x for x in body.walk() if x.k == 'Assign' and x.a['op'] == '=' and strip(x.c[0]).k == 'Index'
+                  and root_ref(x.c[0]) is not None and root_ref(x.c[0]).a.get('name') == 'd__' and strip(x.c[1]).k in ('Ref', 'Float', 'Unary', 'Int')]
+            rd = [x for x in body.walk() if x.k == 'Assign' and strip(x.c[1]).k == 'Index' and root_ref(x.c[1]) is not None
+                  and root_ref(x.c[1]).a.get('name') == 'q']
+            if not st or not rd:
+                continue
+            init, cond = strip(lp.c[0]), strip(lp.c[1])
+            if init.k != 'Assign' or cond.k != 'Binary' or cond.a['op'] != '<=':
+                continue
+            end = strip(cond.c[1])
+            # the generated code parks the bound in i__2 just before the loop: resolve it through the statement in front
+            endtxt = canon(end, ids=False).replace(' ', '')
+            resets.append((lp, canon(strip(init.c[1]), ids=False).replace(' ', ''), endtxt))
+        # resolve i__N bounds: the assignment immediately preceding the loop in its block
+        resolved = []
+        for blk in f.body.walk():
+            if blk.k != 'Block':
+                continue
+            for i, st_ in enumerate(blk.c):
+                for (lp, a_, e_) in resets:
+                    if st_ is lp:
+                        ee = e_
+                        prev = strip(blk.c[i - 1]) if i > 0 else None
+                        while prev is not None and prev.k == 'Label' and prev.c:
+                            prev = strip(prev.c[-1])
+                        if prev is not None and prev.k == 'Assign' and canon(prev.c[0], ids=False).replace(' ', '') == e_:
+                            ee = canon(prev.c[1], ids=False).replace(' ', '').replace('(', '').replace(')', '')
+                        resolved.append((lp, a_, ee))
+        spans = [(a_, e_) for (_, a_, e_) in resolved]
+        starts = spans
+
+        def covers(lo, hi):
+            if (lo, hi) in spans:
+                return True
+            for (a_, e_) in spans:
+                if a_ == lo and e_.endswith('-1') and (e_[:-2], hi) in spans:
+                    return True
+            return False
+        for lo, hi, what in ((fr, '*n', 'stack q[%s..n]' % fr), ('1', 'qlen', 'heap q[1..qlen]')):
+            n += 1
+            inst = '%s:reset-covers-%s' % (fname, 'stack' if lo == fr else 'heap')
+            if covers(lo, hi):
+                chk.ok(cid, inst, sample='reset sweeps %s cover %s; store frontier of the stack is `%s`' % (spans, what, fr))
+            else:
+                chk.violate(cid, inst, loc(f, resolved[0][0]) if resolved else loc(f, f.body), fname,
+                            'the reset sweeps of d[] (%s) do not cover the %s: rows are pushed with `--%s; q[%s] = i`, so a row pushed below the first reset '
+                            'position keeps its distance from this search when the next column is searched' % (spans, what, fr, fr), cfgname=cfgname)
+    return n
